@@ -322,6 +322,7 @@ pub fn property() -> Property {
             Tier::Thorough => 1500.0,
         },
         info: || PropInfo {
+            floors: vec![],
             rule: "one run = a server-mode and a client-mode victim in a live network of 3..6 scripted peers, 2..8 API calls of 11 kinds in flight, a barrage of 10..60 (thorough ..250) injected datagrams (structured catalogue: 18 message kinds x every field x 18 type/length confusions, walked window by window across runs; pairs; grammar-random; byte-level templates; byte mutations; random bytes) from arbitrary/spoofed sources incl. port 0, optional corruption/duplication of real traffic, and 0..5 Byzantine peers answering the victims' own requests with mutated or wrong-kind replies and error codes (incl. 301/302 to non-mutable writes). Verdict: no actor panic, no API-future panic, ping + local calls work afterwards. Non-trivial = hostile datagrams were consumed by a victim; distinct = delivery-order hash".into(),
             assumptions: vec!["a process abort (stack overflow, double panic) is detected by the parent runner as a dead worker".into()],
         },
